@@ -461,6 +461,8 @@ func runC13(h *H) {
 		}
 		h.emit(h.line("C13", "hist").Int(steps).Str(w.String()))
 	}
+	runConcStore(h, "C13")
+	runConcDirect(h, "C13")
 }
 
 // ---------------------------------------------------------------------------------------------
